@@ -13,7 +13,10 @@
 (*                    acks/responses maps, closed flag, the two channels, dl =  *)
 (*                    "time.Now() is after the deadline", armed = timer pending *)
 (* Threads execute operations (op records); one action per critical section:   *)
-(*   query k : q_time  LTime := queryClock.Time()           (message built)     *)
+(*   query k : q_time  LTime := queryClock.Time()  -- or, since commit 82cb47c   *)
+(*                     of /repo, LTime := queryClock.Increment() - 1 (time taken *)
+(*                     and clock advanced in one atomic step); both variants are *)
+(*                     in the model, the trace specification accepts either      *)
 (*             q_reg   [queryLock] queryResponse[LTime] := resp; arm the timer  *)
 (*             q_wit   handleQuery: queryClock.Witness(LTime); return           *)
 (*   reply m : r_look  [queryLock.R] lookup by LTime, then the ID comparison    *)
@@ -74,7 +77,8 @@ Begin(s0, t, o) ==
   LET s == [s0 EXCEPT !.th[t].op = o, !.th[t].x = 0, !.out = [NoOut EXCEPT !.beg = o]] IN
   CASE o.op = "query" ->
          IF s.q[o.k].st # 0 THEN {}
-         ELSE { [s EXCEPT !.q[o.k].st = 1, !.q[o.k].lt = s.clock, !.th[t].pc = "q_reg"] }
+         ELSE { [s EXCEPT !.q[o.k].st = 1, !.q[o.k].lt = s.clock, !.th[t].pc = "q_reg"],
+                [s EXCEPT !.q[o.k].st = 1, !.q[o.k].lt = s.clock, !.clock = s.clock + 1, !.th[t].pc = "q_reg"] }
     [] o.op = "reply" ->
          IF ~(o.idr = 0 \/ s.q[o.idr].st = 2) \/ s.qlock # 0 THEN {}
          ELSE LET x == s.open[o.lt] IN
@@ -133,10 +137,7 @@ RECURSIVE Run(_, _)
 Run(s, t) == IF s.th[t].pc = "idle" THEN s
              ELSE LET c == Cont(s, t) IN IF c = {} THEN s ELSE Run(CHOOSE x \in c : TRUE, t)
 Macro(s, t, o) ==
-  LET b == Begin(s, t, o) IN
-  IF b = {} THEN {}
-  ELSE LET e == Run(CHOOSE x \in b : TRUE, t) IN
-       IF e.th[t].pc # "idle" THEN {} ELSE { [e EXCEPT !.out.beg = o, !.out.fin = o] }
+  { [e EXCEPT !.out.beg = o, !.out.fin = o] : e \in { x \in { Run(b, t) : b \in Begin(s, t, o) } : x.th[t].pc = "idle" } }
 \* "expire k" (real-time runs): the deadline passes and the timer fires right behind it
 ExpireOp(k) == [NoOp EXCEPT !.op = "expire", !.k = k]
 MacroX(s, t, o) ==
